@@ -194,6 +194,9 @@ def judge(ctx, s1, s2, tb, fb):
     g1, g2 = geoms.build(s1), geoms.build(s2)
     if ctx.evaluations % 5 == 0:
         g1, g2 = geoms.build_derived(s1, ctx.rng), geoms.build_derived(s2, ctx.rng)
+    if s1 == s2 and ctx.evaluations % 2:
+        g2 = g1               # compared with itself: the very same object on both sides
+        ctx.mon("affinity.same_object_twice")
     try:
         A.compute_affinity(g1, g2, time_buffer=tb, freq_buffer=fb)
         if tb > 0 and fb > 0 and ctx.evaluations % 3 == 0:
